@@ -1209,9 +1209,9 @@ def run(ctx):
         ctx.log("C07_DEV_NO_LEAN set: Lean obligations NOT checked in this run")
         ctx.broken("dev:no-lean", "C07_DEV_NO_LEAN is set")
     else:
-        proofs_ok = ctx.lean_props(["Holpy.C07.Props", "Holpy.C07.PropsText", "Holpy.C07.PropsTypes"], exes=[EXE])
+        proofs_ok = ctx.lean_props(["Holpy.C07.Props", "Holpy.C07.PropsText", "Holpy.C07.PropsTypes", "Holpy.C07.PropsTypesText", "Holpy.C07.PropsBroken", "Holpy.C07.PropsInst"], exes=[EXE])
         if ctx.tier == "thorough" and proofs_ok:
-            ctx.lean_check_modules(["Holpy.C07.Props", "Holpy.C07.PropsText", "Holpy.C07.PropsTypes"])
+            ctx.lean_check_modules(["Holpy.C07.Props", "Holpy.C07.PropsText", "Holpy.C07.PropsTypes", "Holpy.C07.PropsTypesText", "Holpy.C07.PropsBroken", "Holpy.C07.PropsInst"])
     if ops is None or levels is None:
         # fall back so that the failing-input search can still run
         ops, binders = ops or [], binders or []
@@ -1394,26 +1394,27 @@ KEYWORD_NAMES = ["DIV", "INT", "Int", "MOD", "Mem", "O", "SOME", "Sub", "THE", "
 
 MANIFEST = {
     "text": "Lean theorems over regenerated tables (operator/binder table of syntax/operator.py, lambda spelling of pprint.py, rule ladder and ALL literal "
-            "terminals of the grammar in syntax/parser.py). TERMS: parse_print (tokens: the printer's bracket rules suffice for the ladder parser, for "
-            "every TableConsistent table/ladder; table_consistent by decide); lex_print (TEXT: a model of Lark's standard lexer -- %ignore WS, greedy "
-            "CNAME/INT before string terminals, keyword = CNAME spelled like a string terminal, string terminals longest first -- reads the text the "
-            "printer writes without a line limit back as exactly the printer's tokens, for every skeleton whose names are NameOK: identifier or "
-            "numeral shape and no literal terminal; covers the blanks around infix operators, prefix operators written directly before their operand "
-            "(`--x` vs `-->`), `UN `/`THE ` with their blank, binder symbol + name + `. `, brackets, if/then/else; for every terminal list with TextOK, "
-            "text_ok by decide); parse_print_text = their composition (lexer then parser on the printed text gives back the skeleton). TYPES: "
-            "type_parse_print (tokens of print_type: right-nested arrows, postfix constructors, argument tuples, 'a / ?'a; recursive descent for rule "
-            "`type` with Lark's shift preference). SEQUENTS: thm_parse_print (tokens of print_thm `A1, A2 |- C` / `|- C` on top of parse_print; seq_ok "
-            "by decide). Each model is tied to the real code on every run: model printText == real text, model lexer == Lark's real token stream "
-            "(leaves of a keep_all_tokens parse with the same grammar string) on printed and bracket-perturbed texts, model parsers == real parsers "
-            "(terms, types, sequents), NameOK checked by the driver on every generated skeleton. The property itself (all 12 settings, memo histories "
-            "within and across theories, instantiations, proof items) is checked by round trip on type-directed generated terms and all library statements.",
+            "terminals of the grammar in syntax/parser.py). TERMS (precedence core: operators in all positions, prefix operators, application, binders "
+            "-- printed one by one, the printer does not collapse `!a. !b.` --, if-then-else, atoms incl. numerals; negative numerals and fractions are "
+            "prefix minus and `/`; let is an application): parse_print (tokens), lex_print (TEXT without line limit -> tokens, model of Lark's standard "
+            "lexer, names NameOK), parse_print_text (composition), broken_same_tokens / parse_print_broken (every layout that keeps each separating "
+            "blank, adds arbitrary whitespace after it and writes a whitespace run before `else` -- what print_ast does for every line width -- lexes to "
+            "the same tokens). TYPES: type_parse_print (tokens), type_lex_print (text of print_type -> tokens), type_parse_print_text. SEQUENTS: "
+            "thm_parse_print, thm_lex_print (`A1, A2 |- C`, `|- C`, both turnstiles), thm_parse_print_text. INSTANTIATIONS: inst_parse_print (tokens of "
+            "`{}` / `{'a: T, x: t}` as export_proof_item writes them; rule `inst`). All for abstract tables under decidable conditions (TableConsistent, "
+            "TextOK, TypeTextOK, SeqOK, SeqTextOK, InstOK) that are discharged by `decide` for the regenerated tables on every run. Every model is tied "
+            "to the real code on every run: model text == real text (terms, types, sequents), real line-broken texts matched against printTextW by the "
+            "driver, model lexer == Lark's real token stream, model parsers == parse_term / parse_type / parse_thm / parse_inst, NameOK checked by the "
+            "driver. The property itself (12 settings, memo histories within and across theories, proof items) is checked by round trip on type-directed "
+            "generated terms and all library statements.",
     "note": "Trusted: Lean kernel, propext/Classical.choice/Quot.sound; the harness generator, its own alpha-equality and type checker; the regex/ast reader "
-            "of grammar, operator.py and pprint.py; Lark's LALR tables. NOT covered by a theorem: the CONTEXTUAL restriction of Lark's lexer (the model is "
-            "the standard lexer; they differ only on texts with keyword-spelled identifiers or e.g. `a|-b`, which NameOK / the printer's spacing exclude -- "
-            "compared at run time); the text level of TYPES and SEQUENTS (their theorems are about tokens; the step from print_type / print_thm text to "
-            "tokens is checked by the correspondence streams only); line-broken layout (model parser run on the broken real texts); instantiations and "
-            "proof items (oracle only); the link term <-> skeleton (projection in the harness: names that are constants of the theory, type annotations, "
-            "literals, binder renaming, over-applied operator heads are outside the modelled core); minimal type annotations; highlight colours.",
+            "of grammar, operator.py and pprint.py; Lark's LALR tables. NOT covered by a theorem (run-time round trip / correspondence only): terms WITH type "
+            "annotations `(c::T)`, `%x::T. t` (which subterms get annotated, and the annotation syntax itself, are outside the skeleton language); the "
+            "literal syntaxes char/string, list and set literals, intervals, set comprehension, function update; the text level of instantiations and "
+            "proof items (inst_parse_print is about tokens; the argument signatures of export_proof_item / parse_proof_rule are oracle only); the "
+            "CONTEXTUAL restriction of Lark's lexer (the model is the standard lexer; they differ only on texts that NameOK / the printer's spacing "
+            "exclude); the link term <-> skeleton (projection in the harness: names that are constants of the theory, binder renaming, over-applied "
+            "operator heads); minimal type annotations; highlight colours.",
     "design_ref": "DESIGN.md 4/C07",
 }
 FINDINGS = [
